@@ -53,6 +53,9 @@ ASSUMPTIONS = [
     'results through C pow() or with an integer beyond 2^53 in play are compared with relative tolerance 1e-9 (`~`)',
     'function handlers needing the address layer (ROW, COLUMN, OFFSET, INDIRECT, SUBTOTAL) and reference operators '
     '(: space ,) are not generated in governed cases',
+    'NUMBER tokens that are not plain decimal literals (openpyxl classifies by float(): inf, nan, Infinity, 1_0) are emitted '
+    'verbatim and become Python NAMEs; the emitter model covers decimal literals only, such raw strings are compared '
+    'on rpn and tree only',
     'a NUL character inside a text literal is not generated (CPython rejects NUL in source; XML cell text has none)',
 ]
 TRUSTED = ['modelled, not verified: openpyxl tokenizer, CPython tokenizer/parser (cross-checked), networkx DiGraph']
@@ -310,7 +313,7 @@ def in_scope(t):
     if k == 'N':
         return re.fullmatch(r'(\d+\.?\d*|\.\d+)([eE][+-]?\d+)?', t[1]) is not None
     if k == 'R':
-        return _CANON_REF.fullmatch(t[1]) is not None
+        return _canon_ref(t[1])
     if k == 'T':
         return '\0' not in t[1]
     return True
@@ -494,6 +497,11 @@ def dump_pyast(code):
             return ['b' + cop[type(n.ops[0])]] + go(n.left) + go(n.comparators[0])
         if isinstance(n, ast.Call) and isinstance(n.func, ast.Name) and not n.keywords:
             return [f'c{len(n.args)}:{cps(n.func.id)}'] + [x for a in n.args for x in go(a)]
+        if isinstance(n, ast.Call) and isinstance(n.func, ast.Constant) and not n.keywords and \
+                (n.func.value is True or n.func.value is False or n.func.value is None):
+            # `True(a)`: CPython parses a call on the keyword constant (SyntaxWarning only); the model's token
+            # `name True` followed by `(` is the same call — keyword constants are dumped as names on both sides
+            return [f'c{len(n.args)}:{cps(repr(n.func.value))}'] + [x for a in n.args for x in go(a)]
         if isinstance(n, ast.Tuple):
             return [f't{len(n.elts)}'] + [x for a in n.elts for x in go(a)]
         raise Unsupported
@@ -729,17 +737,35 @@ def explain(impl_out, model_out, case=None):
 
 
 _CANON_REF = re.compile(r'\$?[A-Z]{1,2}\$?[1-9]\d{0,3}(:\$?[A-Z]{1,2}\$?[1-9]\d{0,3})?')
+_DEC_NUM = re.compile(r'(\d+\.?\d*|\.\d+)([eE][+-]?\d+)?')
 _CANON_FN = re.compile(r'[A-Za-z_][A-Za-z0-9_.]*')
+
+
+def _canon_ref(text):
+    """a reference the address layer (C11) emits unchanged: A1 / A1:B2 with ordered, distinct corners"""
+    if not _CANON_REF.fullmatch(text):
+        return False
+    if ':' in text:
+        a, b = (re.fullmatch(r'([A-Z]+)(\d+)', x.replace('$', '')).groups() for x in text.split(':'))
+        ca, cb = (len(a[0]), a[0]), (len(b[0]), b[0])
+        if not (ca <= cb and int(a[1]) <= int(b[1])) or (ca == cb and a[1] == b[1]):
+            return False
+    return True
 
 
 def _raw_simple(tree_dump):
     for t in tree_dump.split():
-        if t.startswith('o:R') and not _CANON_REF.fullmatch(uncps(t[3:])):
+        if t.startswith('o:R') and not _canon_ref(uncps(t[3:])):
             return False
+        if t.startswith('o:N') and not _DEC_NUM.fullmatch(uncps(t[3:])):
+            return False     # openpyxl calls anything float() reads a NUMBER (inf, nan, Infinity): emitted verbatim,
+            #                  Python's lexer then sees a NAME; the emitter model covers decimal literals only
         if t[0] == 'F' and ':' in t:
             name = uncps(t.split(':', 1)[1])
             if not _CANON_FN.fullmatch(name) or py_func_name(name)[0] in SPECIAL_FUNCS - {'array', 'arrayrow'}:
                 return False
+            if not py_func_name(name)[1].isidentifier():
+                return False     # e.g. _xlfn.1X( -> `1x(`: not one Python NAME token
     return True
 
 
